@@ -54,7 +54,7 @@ func c06create(rt *rapid.T, creator, requested hlref.Access, path string, via ..
 			initial.Set(b)
 		}
 	}
-	opt := hlsim.Options{Agreement: "a", Accounts: []hlsim.AccountSpec{acct("admin", "Admin", "adminpw", allAccess), {Login: "creator", Name: "Creator", Password: "cpw", Access: initial}}}
+	opt := hlsim.Options{Agreement: "a", Accounts: []hlsim.AccountSpec{acct("admin", "Admin", "adminpw", allAccess), {Login: "creator", Name: "Creator", Password: "cpw", Access: initial}, acct("other", "Other", "opw", hlref.Access{})}}
 	inWorld(rt, opt, func(rt *rapid.T, w *hlsim.World) {
 		admin := loginAs(rt, w, "10.0.0.1:1", "admin", "adminpw", "admin")
 		if setuser {
@@ -72,6 +72,17 @@ func c06create(rt *rapid.T, creator, requested hlref.Access, path string, via ..
 		case "new-user":
 			r = c.Request(hlref.TranNewUser, fld(hlref.FUserLogin, hlref.Obfuscate([]byte("made"))), sfld(hlref.FUserName, "Made"),
 				fld(hlref.FUserPassword, hlref.Obfuscate([]byte("mpw"))), fld(hlref.FUserAccess, requested[:]))
+		case "update-user-after-edit":
+			// one batch request with two entries: an edit of another account that keeps its login (allowed or not), then the
+			// creation.  Each entry is judged on its own.
+			none := hlref.Access{}
+			r = c.Request(hlref.TranUpdateUser,
+				fld(hlref.FData, subFields(fld(hlref.FData, hlref.Obfuscate([]byte("other"))), fld(hlref.FUserLogin, hlref.Obfuscate([]byte("other"))), sfld(hlref.FUserName, "Other"), fld(hlref.FUserAccess, none[:]), fld(hlref.FUserPassword, []byte{0}))),
+				fld(hlref.FData, subFields(fld(hlref.FUserLogin, hlref.Obfuscate([]byte("made"))), sfld(hlref.FUserName, "Made"),
+					fld(hlref.FUserPassword, hlref.Obfuscate([]byte("mpw"))), fld(hlref.FUserAccess, requested[:]))))
+			if g := admin.Request(hlref.TranGetUser, sfld(hlref.FUserLogin, "other")); !okReply(g) {
+				rt.Fatalf("%s: creator %v requested %v for a new account: the account \"other\", edited in the same request, is gone", path, bitsOf(creator), bitsOf(requested))
+			}
 		default:
 			r = c.Request(hlref.TranUpdateUser, fld(hlref.FData, subFields(fld(hlref.FUserLogin, hlref.Obfuscate([]byte("made"))), sfld(hlref.FUserName, "Made"),
 				fld(hlref.FUserPassword, hlref.Obfuscate([]byte("mpw"))), fld(hlref.FUserAccess, requested[:]))))
@@ -87,6 +98,9 @@ func c06create(rt *rapid.T, creator, requested hlref.Access, path string, via ..
 		}
 		created = inMem
 		want := subset(requested, creator)
+		if path == "update-user-after-edit" && !creator.Has(hlref.PrivModifyUser) {
+			want = false // the edit entry may stop the whole request; a creation that happens is still checked below
+		}
 		if want && !created {
 			rt.Fatalf("%s: requested privileges are a subset of the creator's but the account was not created (reply %s)", ctx, replySummary(r))
 		}
@@ -198,7 +212,7 @@ func TestC06Create(t *testing.T) {
 	defer ev.Flush()
 	rapid.Check(t, func(rt *rapid.T) {
 		creator := genAccess(rt, "creator")
-		path := rapid.SampledFrom([]string{"new-user", "update-user"}).Draw(rt, "path")
+		path := rapid.SampledFrom([]string{"new-user", "update-user", "update-user-after-edit"}).Draw(rt, "path")
 		via := rapid.SampledFrom([]string{"", "", "setuser"}).Draw(rt, "via")
 		var req hlref.Access
 		cd := creator.Defined()
